@@ -387,6 +387,61 @@ class BulkFetcher(VU):
         return "returns"
 
 
+
+class WrapperPropagates(VU):
+    """table / bulktable / walk / bulkwalk are walk-style operations too (C03): when the walk underneath ends with
+    FaultySNMPImplementation (after having delivered some bindings), the wrapper ends with exactly that exception and does not
+    start the walk again (no second round of requests for OIDs already continued from)."""
+    props = ("C03",)
+    label = "proved-shape-bounded(bindings delivered before the failure enumerated)"
+
+    def __init__(self, name, k):
+        self.opname, self.k = name, k
+        self.target = "puresnmp.api.raw:Client.%s" % name
+        self.functions = (self.target,)
+        self.name = "Client.%s[the walk underneath fails after %d bindings]" % (name, k)
+
+    def setup(self, rt, interp):
+        self.rt = rt
+        if rt.oid is None:
+            rt.oid = OidTheory(rt)
+        self.xv = XValTheory(rt, interp)
+
+    def run(self, interp):
+        ctx, rt = interp.ctx, self.rt
+        stream = [varbind(rt, interp, ctx.fresh_oid("o%d" % j), self.xv.fresh(ctx, "v%d" % j)) for j in range(self.k)]
+        faulty = rt.instantiate(interp, get_cls(rt, interp, "puresnmp.exc:FaultySNMPImplementation"), ["the agent does not advance"], {})
+        calls = []
+        inner = {"table": "walk", "bulktable": "bulkwalk", "walk": "multiwalk", "bulkwalk": "multiwalk"}[self.opname]
+
+        def walk_hook(i, c, a, k):
+            calls.append((a[1:], k))
+            return GenResult(list(stream), pending_exc=faulty, from_function=True)
+        for name in ("walk", "bulkwalk", "multiwalk"):
+            if name != self.opname:
+                rt.hooks["puresnmp.api.raw:Client.%s" % name] = walk_hook
+        rt.hooks["puresnmp.api.raw:Client._bulkwalk_fetcher"] = lambda i, c, a, k: Opaque("bulk-fetcher")
+        client = bare_client(rt, interp)
+        oid = ctx.fresh_oid("oid")
+        fn = get_func(rt, interp, self.target)
+        args = [[oid]] if self.opname == "bulkwalk" else [oid]
+        exc = None
+        try:
+            res = interp.call(BoundMethod(fn, client), args, {})
+            if isinstance(res, GenResult):
+                interp.iterate(res)
+        except PyExc as pe:
+            exc = pe.obj
+        T = self.target
+        ctx.check(oname("C03", T, "raises", "ends-with-the-walks-FaultySNMPImplementation"), exc is faulty)
+        ctx.check(oname("C03", T, "ensures", "does-not-start-the-walk-again(%s called once)" % inner), len(calls) == 1)
+        return "raises"
+
+
+def units_propagates(tier):
+    return [WrapperPropagates(n, k) for n in ("table", "bulktable", "walk", "bulkwalk") for k in (0, 2)]
+
+
 def units_walkcall(tier):
     return [WalkCall(b, k, n) for b in (False, True) for (k, n) in ((0, 1), (2, 1))] + [WalkCall(True, 2, 2), WalkCall(True, 0, 3)] + [
         BulkFetcher(n, k) for (n, k) in ((1, 0), (1, 2), (2, 3), (3, 1))]
